@@ -182,7 +182,7 @@ func (b Bytes) with(index int, byt byte) Set {
 	case 0 <= i && i < len(b.b) && b.b[i] == byt:
 		return b
 	case i == len(b.b):
-		return Bytes{b: append(b.b, byt), offset: b.offset}
+		return Bytes{b: append(b.b[:len(b.b):len(b.b)], byt), offset: b.offset}
 	case index == b.offset-1:
 		return Bytes{
 			b:      append(append(make([]byte, 0, 1+len(b.b)), byt), b.b...),
